@@ -836,9 +836,23 @@ def run_body_obligations(ck, rn_values=(2, 7, 5)):
     ctop = sp.Symbol("cloud_top", real=True)
     hyps = [sp.Ge(beta, sp.pi / 180), sp.Le(beta, sp.pi * 42 / 180), sp.Le(alt, 20), sp.Gt(ZD, 20), sp.Gt(RS, 6000), sp.Gt(OS, 100), sp.Lt(zs[0], zs[1]), sp.Lt(zs[1], zs[2])]
 
+    casts = []
+
+    class WorkingType(harness.Stub):
+        """the kernel's working type used as a conversion function: the identity on real numbers; what it is applied to is recorded (as
+        shipped it is single precision, so applying it to a value that is later compared with double-precision altitudes moves that value)"""
+
+        def __call__(self, x=0.0, *a, **k):
+            if isinstance(x, (S, A)):
+                casts.append(harness.term(x))
+                return x
+            return np.float64(x)
+
     def mk():
         log.clear()
+        casts.clear()
         c = copy.copy(k64())
+        c.dtype = WorkingType()
         c.RadE, c.orbit_height, c.zmax, c.pi, c.detector_altitude = S(RS), S(OS), S(OS), S(P), S(ZD)
         it.base_facts = list(hyps)
         log["__started__"] = []
@@ -846,13 +860,17 @@ def run_body_obligations(ck, rn_values=(2, 7, 5)):
 
     logs = []
 
+    narrowed = []
+
     def mk_logged():
         if log:
             logs.append({k_: list(v_) for k_, v_ in log.items()})
+            narrowed.extend(t_ for t_ in casts if ctop in getattr(t_, "free_symbols", ()))
         return mk()
 
     paths = it.explore(mk_logged)
     logs.append({k_: list(v_) for k_, v_ in log.items()})
+    narrowed.extend(t_ for t_ in casts if ctop in getattr(t_, "free_symbols", ()))
     ck.add_functions(it)
     bad = [p for p in paths if p.kind != "return"]
     if bad or not paths or len(logs) != len(paths):
@@ -974,6 +992,9 @@ def run_body_obligations(ck, rn_values=(2, 7, 5)):
     be = "symbolic execution on explicit arrays (%d steps x %d bins, helpers by contract) + sympy normal form" % (n, w)
     note = "; ".join(notes[:3])
     rep = None if all(v is True for v in res.values()) else {"violated": None, "note": "the bounded run of the real kernel against the reference model is the native side of this obligation"}
+    ck.direct("%s/post.cloud_top_as_given" % qn, not narrowed, "post", "symbolic execution (conversions through the kernel's working type are recorded)", note=str(narrowed[:2])[:200],
+              clause="the cloud top is compared with the (double-precision) step altitudes as the cloud model returned it: it is not converted to the kernel's single-precision working type first",
+              replay_out=None if not narrowed else cloud_cast_native())
     ck.direct("%s/post.early_exit" % qn, res["early"], "post", be, note=note, clause="(0, 0) is returned without summing when the second-to-last step lies below the cloud top", replay_out=rep)
     ck.direct("%s/call.helpers" % qn, res["calls"], "call", be, note=note, clause="each helper receives the columns of the same shower: slant_depth(alt, sin theta_view), valid_arrays(.., E x 1e8 GeV), e0(s), threshold(n), "
               "tracklen(E0, E_thr, s), d_to_det(theta_view, theta_prop, z), sphoton_yeild(theta_c, N, depth ahead, ozone ahead, z, theta_prop)", replay_out=rep)
@@ -982,6 +1003,27 @@ def run_body_obligations(ck, rn_values=(2, 7, 5)):
     ck.direct("%s/post.mean_angle" % qn, res["mean"], "post", be, note=note, clause="weights = (sum over bins of the yield) x track-length fraction per step; <theta> = sum(weight x theta_c)/sum(weight); the spread is computed from the same weights", replay_out=rep)
     ck.direct("%s/post.density" % qn, res["dens"], "post", be, note=note, clause="density = photon sum / (2 pi (tan<theta> x 1000 x distance at the step of maximum particle number)^2) x (d(525 km)/d(detector))^2", replay_out=rep)
     ck.direct("%s/post.angle" % qn, res["ang"], "post", be, note=note, clause="effective angle = (<theta> + spread) in degrees", replay_out=rep)
+
+
+def cloud_cast_native():
+    """the shipped (float32) kernel with cloud tops that are doubles next to a step altitude: the step just below the top must be the last one removed"""
+    k = kernel("float32")
+    b, alt, e = math.radians(20.0), 2.0, 1.0
+    sv = float(np.sin(k.theta_view(np.float32(b))))
+    zs = np.asarray(k.zsteps(alt, sv)[0], dtype=np.float64)
+    worst = None
+    n_ = 0
+    with np.errstate(all="ignore"):
+        for j in range(5, min(len(zs) - 3, 150), 2):
+            # two cloud tops strictly between the same two step altitudes remove the same steps: the results must be identical
+            top_a, top_b = float(zs[j]) + 1e-9, 0.5 * float(zs[j] + zs[j + 1])
+            if not (zs[j] < top_a < zs[j + 1]):
+                continue
+            n_ += 1
+            r_a, r_b = k.run(b, alt, e, 0.0, 0.0, lambda la, lo, t=top_a: t), k.run(b, alt, e, 0.0, 0.0, lambda la, lo, t=top_b: t)
+            if (float(r_a[0]), float(r_a[1])) != (float(r_b[0]), float(r_b[1])) and worst is None:
+                worst = {"step": j, "z_j": repr(float(zs[j])), "z_j+1": repr(float(zs[j + 1])), "cloud top a": repr(top_a), "cloud top b": repr(top_b), "result a": [float(r_a[0]), float(r_a[1])], "result b": [float(r_b[0]), float(r_b[1])]}
+    return {"violated": worst is not None, "input": {"beta_deg": 20.0, "alt": alt, "E": e, "cloud tops": "%d pairs of doubles between consecutive step altitudes (z_j + 1e-9 and the midpoint)" % n_}, "observed": worst}
 
 
 def _same_term(x, y):
